@@ -29,7 +29,7 @@ func NumClasses(t *Type, f *Field) int {
 		}
 		return 7
 	case "tlv":
-		return 8
+		return 10
 	}
 	return 1
 }
@@ -266,6 +266,16 @@ func GenTLVs(r *fw.Rng, class int) []TLV {
 		return mk(r.Range(8, 16), -1, 0, 1, 2)
 	case 7: // many parameters (no document limits their number)
 		return mk(r.Pick(31, 32, 33, 34, 40, 64, 100), -1, 0, 1, 2)
+	case 8: // several large parameters: each one legal, together longer than any 16-bit count can hold
+		return mk(r.Range(3, 5), 20000, 32767, 32768, 40000, 65531)
+	case 9: // one oversize-looking neighbour among small ones, and values at the widths the SMGP table names
+		l := mk(r.Range(2, 4), 8, 20, 21, 1, 65531)
+		for i := range l {
+			if n := len(l[i].Val); n > 0 && n < 64 && r.Chance(1, 2) {
+				l[i].Val[n-1] = 0
+			}
+		}
+		return l
 	}
 	return mk(r.Range(0, 3), -1)
 }
